@@ -6,7 +6,7 @@ use crate::gen::{profile, Gen};
 use crate::rng::{derive, Fnv};
 use crate::sim::{Regime, Sim, SimCfg, Violation};
 use serde_json::json;
-use std::collections::{BTreeMap, BTreeSet, HashSet};
+use std::collections::{BTreeMap, HashSet};
 use std::sync::atomic::{AtomicU64, Ordering};
 use std::sync::{Arc, Mutex};
 use std::time::Instant;
